@@ -47,9 +47,14 @@ pub struct Base {
 }
 
 pub fn judge(ctx: &Ctx, l: &mut Local, b: &Base, base_r: &R, key: Prayer, k: i64) {
+    judge_at(ctx, l, b, base_r, key, k, 0.0)
+}
+
+/// offset = k + frac seconds (frac moves the sub-second phase of every swept instant)
+pub fn judge_at(ctx: &Ctx, l: &mut Local, b: &Base, base_r: &R, key: Prayer, k: i64, frac: f64) {
     let mut p = b.params.clone();
     p.round_seconds = RoundSeconds::None;
-    p.minutes.insert(key, k as f64 / 60.0);
+    p.minutes.insert(key, (k as f64 + frac) / 60.0);
     let p = p;
     let r0 = pt(&p, b.site.loc(), b.date, None);
     l.evals += 1;
@@ -64,7 +69,7 @@ pub fn judge(ctx: &Ctx, l: &mut Local, b: &Base, base_r: &R, key: Prayer, k: i64
         match (secs(base_r, pr), secs(&r0, pr)) {
             (Some(a), Some(g)) => {
                 let want = if moved { a + k } else { a };
-                if cyc(g - want).abs() > if moved { 1 } else { 0 } {
+                if cyc(g - want).abs() > if moved { if frac == 0.0 { 1 } else { 2 } } else { 0 } {
                     ctx.violation("unrounded_time_is_base_plus_offset", &format!("{:?}_{}", pr, case(RoundSeconds::None).key()), case(RoundSeconds::None).to_value(), json!({"prayer": format!("{:?}", pr), "base": fmt_r(base_r), "shifted": fmt_r(&r0), "offset_s": k}));
                 }
             }
@@ -154,9 +159,13 @@ pub fn explore(ctx: &Ctx) {
         }
     }
     let base_rs: Vec<R> = bs.iter().map(|b| pt(&b.params, b.site.loc(), b.date, None)).collect();
+    ctx.alphabet("sub_second_phases", json!({"base_0": [0.0, 0.5], "other_bases": [0.0], "why": "whole-second offsets keep the hidden fractional second of the base time; the half-second sweep moves it across 0.5"}));
     par_jobs(ctx, &jobs, |(bi, key, a, z), l| {
         for k in *a..=*z {
             judge(ctx, l, &bs[*bi], &base_rs[*bi], *key, k);
+            if *bi == 0 && (-43200..=43200).contains(&k) {
+                judge_at(ctx, l, &bs[*bi], &base_rs[*bi], *key, k, 0.5);
+            }
         }
         if *a == -KMAX {
             for k in [-1500 * 60, 1500 * 60] {
